@@ -2639,6 +2639,11 @@ func (db *DB) writeLTXFileAt(ctx context.Context, r io.Reader, verifyPostApplyCh
 	tmpPath := path + ".tmp"
 	defer func() { _ = db.os.Remove("WRITELTX", tmpPath) }()
 
+	// Never reuse the file of an earlier receiver of this transaction ID: it
+	// may still be writing to it (a forwarded transaction whose sender stalled
+	// and lost its halt lock) and would write into the file we publish.
+	_ = db.os.Remove("WRITELTX", tmpPath)
+
 	f, err := db.os.Create("WRITELTX", tmpPath)
 	if err != nil {
 		return "", fmt.Errorf("cannot create temp ltx file: %w", err)
